@@ -17,7 +17,9 @@ COMPONENTS = ['format']
 THEOREMS = ['C19_format_parse_total', 'C19_format_no_panic', 'C19_arg_count_errors', 'C19_pad_reaches_width',
             'C19_field_width_ok', 'C19_decorate_min_width', 'C19_render_int_min_width', 'C19_radix_digits_value',
             'C19_render_int_digits', 'C19_decimal_exact_below_2p53', 'C19_fixed_digits_correct', 'C19_fixed_is_rendered',
-            'C19_g_shape', 'C19_pad_bytes_refuted', 'C19_fmt_prec_limit', 'C19_nonvacuous']
+            'C19_g_shape', 'C19_exp_digits_correct', 'C19_exp_exponent', 'C19_exponent_unique', 'C19_exp_is_rendered',
+            'C19_g_selects', 'C19_g_trim_keeps_value', 'C19_g_deviations',
+            'C19_pad_bytes_refuted', 'C19_fmt_prec_limit', 'C19_nonvacuous']
 ALLOWED_AXIOMS = set()
 TRANSLATORS = []
 
@@ -620,16 +622,23 @@ def load_shown(impl_exe):
 def near_log10_boundary(case):
     """%g selects by floor(libm log10 |x|); the model uses the exact floor.  They may differ only for
     |x| within a few ulp below a power of ten."""
-    vals = case['args'][1] if case['args'][0] != 'S' else [case['args'][1]]
+    a = case['args']
+    if a[0] == 'S':
+        vals = [a[1]]
+    elif a[0] == 'O':
+        vals = [v for _, v in a[1]]
+    else:
+        vals = list(a[1])
     for v in vals:
-        if isinstance(v, tuple) and v[0] == 'n':
+        if v[0] == 'n':
             x = abs(float_of(v[1]))
             if x > 0 and not math.isinf(x):
                 l = math.log10(x)
-                if abs(l - round(l)) < 1e-9:
+                k = round(l)
+                if abs(l - k) < 1e-9:
+                    if 0 <= k <= 22 and x == float(10 ** k):
+                        continue      # an exact power of ten: libm's log10 is exact there
                     return True
-        elif isinstance(v, tuple) and len(v) == 2 and isinstance(v[1], tuple):
-            pass
     return False
 
 
